@@ -1,4 +1,4 @@
-import PprofVerif.Lemmas.GraphTotal
+import PprofVerif.Lemmas.GraphIndex
 /-!
 # C04 — report flat, cum and edge values equal their definition over samples
 
@@ -56,10 +56,40 @@ theorem mean_eq_spec (ss : List (GSample κ)) (n a b : κ) :
   rw [graph_cum_eq_spec, graph_flat_eq_spec, graph_edge_eq_spec]
   exact ⟨rfl, rfl, rfl, by unfold computeTotal; rw [PV.Graph.total_eq_spec]⟩
 
+/-- call-tree mode (`newTree`): an entry is identified by its path from the root
+(`treeSample` re-keys every frame by the prefix of the stack ending at it); its cum is the Σ over
+the samples whose stack passes through that path. -/
+theorem tree_cum_eq_spec (ss : List (GSample κ)) (n : List κ) :
+    (newTree ss).cum n = cumSpec (ss.map treeSample) n := PV.Graph.tree_cum_eq_spec ss n
+
+/-- call-tree mode: flat = Σ over the samples whose whole stack is that path. -/
+theorem tree_flat_eq_spec (ss : List (GSample κ)) (n : List κ) :
+    (newTree ss).flat n = flatSpec (ss.map treeSample) n := PV.Graph.tree_flat_eq_spec ss n
+
+/-- call-tree mode: the edge parent-path → child-path weighs the Σ over the samples passing through
+the child path. -/
+theorem tree_edge_eq_spec (ss : List (GSample κ)) (a b : List κ) :
+    (newTree ss).weight a b = edgeSpec (ss.map treeSample) a b := PV.Graph.tree_edge_eq_spec ss a b
+
+/-- `SampleIndexByName` never selects a column outside the sample types, whatever the option string
+(so the value extractor `v[ix]` cannot index out of range on a valid profile). -/
+theorem sampleIndexByName_in_range (p : Profile) (si : Str) (i : Nat)
+    (h : sampleIndexByName p si = some i) : i < p.sampleType.length :=
+  sampleIndexByName_lt p si i h
+
 -- non-vacuity / sanity: direct recursion a→a→b, value 5: cum a = 5 (once), flat b = 5, edge a→b = 5, no self edge
 example : let ss : List (GSample Nat) := [{ frames := [1, 1, 2], w := 5, d := 1 }, { frames := [2, 1], w := -3, d := 1 }]
     ((newGraph allKept ss).cum 1 = ⟨2, 2⟩ ∧ (newGraph allKept ss).flat 2 = ⟨5, 1⟩ ∧
      (newGraph allKept ss).weight 1 2 = ⟨5, 1⟩ ∧ (newGraph allKept ss).weight 1 1 = 0 ∧
      computeTotalWD ss = ⟨8, 2⟩) := by decide
+
+-- call tree: a→a→b gives three distinct path entries, each counted once
+example : let ss : List (GSample Nat) := [{ frames := [1, 1, 2], w := 5, d := 0 }]
+    ((newTree ss).cum [1] = ⟨5, 0⟩ ∧ (newTree ss).cum [1, 1] = ⟨5, 0⟩ ∧ (newTree ss).flat [1, 1, 2] = ⟨5, 0⟩ ∧
+     (newTree ss).weight [1] [1, 1] = ⟨5, 0⟩) := by decide
+
+-- "1" selects column 1, "7" is out of range, "" selects the last column (no default type)
+example : let p : Profile := { (default : Profile) with sampleType := [⟨[111], []⟩, ⟨[115], []⟩] }
+    (sampleIndexByName p [49] = some 1 ∧ sampleIndexByName p [55] = none ∧ sampleIndexByName p [] = some 1) := by decide
 
 end PV.Props.C04
